@@ -444,6 +444,14 @@ def gamma_peak_density(repo, rep):
 
 
 def run(repo, rep, tier):
+    rep.rule("R-C02-9", "(shared with C10) no peak parameter is masked by comparing an energy-dependent quantity with an absolute constant: a clear peak of a "
+                        "low-energy spectrum is still a peak")
+    from ..spectyping import Typing as _Typing
+    from .shared import scale_free_guards
+    scale_free_guards(repo, rep, "R-C02-9", _Typing(repo, two_d=True), ("tp", "fp", "dp", "dpm", "dpspr", "alpha", "gamma"), type_them=True)
+    rep.rule("R-C02-8", "(shared with C09) peak parameters requested through stats() with band limits are those of the split spectrum")
+    from .c09 import stats_dispatch
+    stats_dispatch(repo, rep, "R-C02-8")
     rep.rule("R-C02-6", "(shared with C18) no peak statistic is memoised on the xarray-cached accessor: after an in-place edit the reported "
                         "peak would be the peak of the spectrum as it was")
     from ..effects import Engine as _Eng
